@@ -23,7 +23,7 @@ LEVEL = "fault_enumeration"
 
 RULE = ("enumerated: server behaviour {200 JSON, 200 JSON padded with whitespace, 200 chunked JSON, 201 JSON, 200 JSON with BOM, 200 garbage, 200 "
         "empty, 200 truncated JSON, 204 empty, 301 without Location, 400 / 401 / 404 with JSON and text bodies, 500, 503 with JSON body, "
-        "connection refused, closed before headers, closed mid-body} x output {stdout, new file, existing file}; for each cell the "
+        "connection refused, closed before headers, closed mid-body} x output {stdout, new file, existing file, existing file longer than the reply}; for each cell the "
         "flags {--is-one-of, --specify-by-url} (4 combinations), header sets (odd spacing, colons / tabs in values, empty values, 3 "
         "headers) and --authorization are cycled so that every value occurs with every behaviour class; plus the refused header "
         "strings (no colon, empty name, blank / tab inside the name) which must fail before any request. Schemas served come from "
@@ -32,7 +32,9 @@ RULE = ("enumerated: server behaviour {200 JSON, 200 JSON padded with whitespace
 GQL_DIR = os.path.join(build.REPO, "graphql_client_cli", "src", "graphql")
 FLOOR = {"invocations": 60, "requests-checked": 40, "success-cells": 12, "failure-cells": 30, "existing-file-preserved": 10, "refused-headers": 4, "code-equivalence": 3}
 
-HEADER_SETS = [[], ["X-Name: Value"], ["X-A:1", " X-B : v:1 "], ["X-Tab:\tT ", "X-Empty:", "Accept-Language: fr, en;q=0.5"], ["x-lower: é-latin"]]
+HEADER_SETS = [[], ["X-Name: Value"], ["X-A:1", " X-B : v:1 "], ["X-Tab:\tT ", "X-Empty:", "Accept-Language: fr, en;q=0.5"], ["x-lower: é-latin"],
+               # the same header name twice (and once more in another case): every --header must reach the server
+               ["X-Feature: alpha", "X-Feature: beta", "x-feature: gamma", "X-Other: 1"]]
 BAD_HEADERS = ["X-Name Value", ": Value", "X Name: Value", "X\tName: Value", ":", "   : v"]
 
 
@@ -107,7 +109,7 @@ def main(run):
     reps = run.size(1, 12)
     for rep in range(reps):
         for bname, mk, expect in bs:
-            for outmode in ("stdout", "new-file", "existing-file"):
+            for outmode in ("stdout", "new-file", "existing-file", "existing-longer-file"):
                 flags = [(False, False), (True, False), (False, True), (True, True)][(i + rep) % 4]
                 hs = HEADER_SETS[(i // 2 + rep) % len(HEADER_SETS)]
                 auth = [None, "tok123", "tok with space"][(i + rep) % 3]
@@ -130,6 +132,10 @@ def main(run):
             argv += ["--output", out]
             if cell["outmode"] == "existing-file":
                 open(out, "w").write('{"previous": "schema", "keep": true}\n')
+                before = sha(out)
+            elif cell["outmode"] == "existing-longer-file":
+                # an older, much longer schema file: whatever is written must replace it completely
+                open(out, "w").write(json.dumps({"previous": "schema", "padding": ["x" * 100] * 3000}, indent=1) + "\n")
                 before = sha(out)
         for h in cell["headers"]:
             argv += ["--header", h]
@@ -239,7 +245,7 @@ def main(run):
                 run.count("failure-cells")
                 if rc == 0:
                     problems.append("exit 0 although the server behaved as %s" % cell["behaviour"])
-                if cell["outmode"] == "existing-file":
+                if cell["outmode"] in ("existing-file", "existing-longer-file"):
                     if after != before:
                         problems.append("existing --output file was changed (now %s) although the run failed on %s" % ("missing" if after is None else "%d bytes" % os.path.getsize(out), cell["behaviour"]))
                     else:
